@@ -1,6 +1,6 @@
 """C16 (cluster Tc): testcase trees — wire syntax, Python source rendering, generators.
 
-Case line:  <mode> <nest0> <node>*      mode ip|newbot|tbot, nodes in pre-order, each
+Case line:  <mode> <nest0> <node>*      mode ip|newbot|newbotk|tbot (newbotk = `newbot -k`, every testcase body uses a machine of tbot.ctx), nodes in pre-order, each
             <guard><form><id>:<fin>:<number of children>
             guard n|e|a  (call unguarded / in `except Exception` / in `except BaseException`)
             form  d|m|w  (@tbot.testcase / @tbot.named_testcase / with tbot.testcase(...))
@@ -81,7 +81,7 @@ def _parse_nodes(toks, pos, count):
 def parse(line):
     toks = line.split()
     mode, nest0 = toks[0], int(toks[1])
-    if mode not in ("ip", "newbot", "tbot"):
+    if mode not in ("ip", "newbot", "newbotk", "tbot"):
         raise ValueError(mode)
     roots, pos = [], 2
     while pos < len(toks):
